@@ -1044,3 +1044,24 @@ fn c01_keywords_and_reference() {
     assert!(pos + 2 == o.len() && o[pos] == b' ' && o[pos + 1] == b'R', "reference keyword");
     kani::cover!(id > 9999 && g > 99);
 }
+
+/// Strings next to other tokens: `[(s) 5]` and `[<hh> /N]` (delimiters need no separator, the
+/// following token must still start right after the closing delimiter or a space).
+#[kani::proof]
+#[kani::unwind(19)]
+#[kani::stub(<[usize]>::contains, slice_contains_model)]
+fn c01_array_string_pairs() {
+    let c: u8 = kani::any();
+    kani::assume(c != b'(' && c != b')' && c != b'\\' && c != b'\r');
+    let mut s1 = ArrSink::<16>::new();
+    let mut s2 = ArrSink::<16>::new();
+    assert!(Writer::write_array(&mut s1, &[Object::String(vec![c], StringFormat::Literal), Object::Integer(5)]).is_ok());
+    assert!(Writer::write_array(&mut s2, &[Object::String(vec![c], StringFormat::Hexadecimal), Object::Name(vec![b'N'])]).is_ok());
+    let o1 = s1.out();
+    assert!(o1.len() >= 6 && o1[0] == b'[' && o1[1] == b'(' && o1[2] == c && o1[3] == b')', "literal string element");
+    let p = if is_ws(o1[4]) { 5 } else { 4 };
+    assert!(o1[p] == b'5' && o1[p + 1] == b']' && o1.len() == p + 2, "number after a string");
+    let o2 = s2.out();
+    assert!(o2.len() == 8 && o2[0] == b'[' && o2[1] == b'<' && o2[4] == b'>' && o2[5] == b'/' && o2[6] == b'N' && o2[7] == b']', "name after a hex string");
+    kani::cover!(c == b'A');
+}
